@@ -66,9 +66,30 @@ Variants(k, s, b) ==
                                                                                emptyargs |-> (tk.t = "p" /\ tk.s = ")" /\ b.t[i - 1].t = "p" /\ b.t[i - 1].s = "(")])
           ELSE TRUE
 
+\* TWO gaps changed at once (C16): a line break of one kind in an earlier gap and one of another kind - or a line comment -
+\* in a later gap.  A reader that folds CR / CRLF / LF with a one-character memory is only wrong on such mixtures.
+PairGaps == << <<"\r", "\n">>, <<"\r", " -- c\n">>, <<"\n", "\r">>, <<"\r\n", "\r">>, <<" -- c\r", "\n">>, <<"\r", "\r\n">>,
+               <<" /* c */ ", " -- c\n">>, <<"\r", " /* c */ ">> >>
+IsCommentGap(w) == w \in {" -- c\n", " -- c\r", " /* c */ "}
+PairBases(k, s) == LET SL == Slots(k, s) IN
+  IF Len(SL) = 1 THEN {}
+  ELSE IF k = "selectone" THEN (IF s = "fields" THEN {BuildFrom(SL, 1, <<>>, <<>>)} ELSE {})
+  ELSE IF k = "alter" THEN LET b == BuildFrom(SL, 1, <<>>, <<>>) IN {AlterTail(1, b.a, b.t)}
+  ELSE {BuildFrom(SL, 1, <<>>, <<>>)}
+PairVariants(k, s, b) ==
+  \A i \in 2..Len(b.t) : \A j \in (i + 1)..Len(b.t) :
+    IF LooseAt(b.t, i) /\ LooseAt(b.t, j)
+    THEN \A p \in 1..Len(PairGaps) :
+           Emit(k, s, b, [b.t EXCEPT ![i] = b.t[i] @@ [w |-> PairGaps[p][1]], ![j] = b.t[j] @@ [w |-> PairGaps[p][2]]],
+                [what |-> "gap", comment |-> (IsCommentGap(PairGaps[p][1]) \/ IsCommentGap(PairGaps[p][2])), at |-> i, v |-> 0,
+                 re |-> (b.t[i].t = "re" \/ b.t[j].t = "re"),
+                 emptyargs |-> \E x \in {i, j} : (b.t[x].t = "p" /\ b.t[x].s = ")" /\ b.t[x - 1].t = "p" /\ b.t[x - 1].s = "(")])
+    ELSE TRUE
+
 Init == kind \in KindsUsed /\ sub \in Subs(kind) /\ done = FALSE
 Step == /\ ~done
         /\ \A b \in Bases(kind, sub) : Variants(kind, sub, b)
+        /\ IF WithComments THEN \A b \in PairBases(kind, sub) : PairVariants(kind, sub, b) ELSE TRUE
         /\ done' = TRUE /\ UNCHANGED <<kind, sub>>
 Next == Step
 Spec == Init /\ [][Next]_vars
